@@ -208,6 +208,9 @@ thread_local! {
 }
 static HOOK: Once = Once::new();
 
+/// (message, file:line) of panics raised in library code outside a guarded call
+pub static UNGUARDED_LIB_PANICS: std::sync::Mutex<Vec<(String, String)>> = std::sync::Mutex::new(Vec::new());
+
 pub fn install_hook() {
     HOOK.call_once(|| {
         let prev = panic::take_hook();
@@ -231,7 +234,17 @@ pub fn install_hook() {
                 let step_budget = msg.starts_with(hifitime::verif_hooks::STEP_BUDGET_PANIC);
                 LAST_PANIC.with(|p| *p.borrow_mut() = Some(PanicInfo { msg, loc, step_budget }));
             } else {
-                // A panic of the harness itself must stay loud.
+                // A panic of the harness itself must stay loud. A panic raised *inside the library* while no guard is active
+                // (a monitor called it unguarded) is remembered: hfcheck reports it as a violation, not as a harness failure.
+                if let Some(l) = info.location() {
+                    if l.file().contains("repo-link/") {
+                        let msg = info.payload().downcast_ref::<&str>().map(|s| s.to_string()).or_else(|| info.payload().downcast_ref::<String>().cloned()).unwrap_or_default();
+                        let f = l.file().rsplit_once("repo-link/").map(|x| x.1).unwrap_or(l.file());
+                        if let Ok(mut v) = UNGUARDED_LIB_PANICS.lock() {
+                            v.push((msg, format!("{}:{}", f, l.line())));
+                        }
+                    }
+                }
                 prev(info);
             }
         }));
